@@ -12,7 +12,10 @@ EXPLANATION = (
     "three tabled exceptions are accepted and each is checked to sit on the edge of the specific code: read_card 0x6C "
     "-> Error::NoCardPresented, begin 0xFC -> Error::NeedsPinEntry, end_of_day 0xA0 -> Ok; get_pending's abort is its "
     "answer. The three codes and the discriminants of ErrorMessages they are compared with are const-evaluated. Covers "
-    "all 256 codes because the code is never inspected except on those three edges.")
+    "all 256 codes because the code is never inspected except on those three edges. Nested operations: every call from "
+    "one client method to another async client method is `?`-propagated (or returned), so an abort surfaced by a "
+    "sub-exchange (end-of-day after commit/cancel, clean-up reversal, set-terminal-id/initialise inside configure) "
+    "fails the outer operation too; the single tabled exception is the constructor's tolerated initial configure.")
 RULE = ("abort-arm region: no Ok return, stream not polled again, every Err mentions <abort packet>.error; exceptions "
         "only under switch value / Eq-edge of the tabled code; from_u8 is the derived FromPrimitive of ErrorMessages.")
 
@@ -87,6 +90,57 @@ def run(ctx, chk):
                     "ErrorMessages::from_u8", "FromPrimitive for ErrorMessages is not the derived implementation", "derived",
                     nontrivial=False)
     chk.floor("abort arms analysed", n_arms, 9)
+    nested(chk, crate)
+
+
+# (caller, callee) pairs where the nested outcome is deliberately dropped - one line of reason each
+NESTED_EXCEPTIONS = {
+    ("new", "configure"): "the constructor tolerates a failing initial configuration by design (source comment: 'Ignore the "
+                          "errors from configure'); it is not one of the property's operations - `configure` itself, called "
+                          "as an operation, reports the abort",
+}
+
+
+def nested(chk, crate):
+    """An abort surfaced by one client operation must not be lost by the operation that invoked it:
+    every call from a client method to another fallible client method is `?`-propagated (or is the
+    method's own result)."""
+    n = 0
+    for bid in sorted(crate.bodies):
+        if not (bid.startswith(FEIG) and bid.endswith("::{closure#0}")) or "::test" in bid:
+            continue
+        short = bid[len(FEIG):-len("::{closure#0}")]
+        if "::" in short:
+            continue
+        try:
+            f = Fn(crate, short)
+        except KeyError:
+            continue
+        rets = f.ret_writes()
+        for bb, t in f.b.calls():
+            cn = callee(t)
+            if not cn.startswith(FEIG) or cn[len(FEIG):] in ("new",) or "::" in cn[len(FEIG):]:
+                continue
+            callee_body = crate.bodies.get(cn + "::{closure#0}")
+            if callee_body is None:
+                continue        # not an async method
+            n += 1
+            inst = "%s -> %s" % (short, cn[len(FEIG):])
+            if (short, cn[len(FEIG):]) in NESTED_EXCEPTIONS:
+                chk.ok("C20/nested-abort-propagates", inst, "tabled exception: " + NESTED_EXCEPTIONS[(short, cn[len(FEIG):])][:80],
+                       f.sp(bb), nontrivial=False)
+                continue
+            ok = False
+            for rbb, e in rets:
+                kind = f.classify_ret(e)
+                if any(x[0] == "call" and x[1] == cn and len(x) > 3 and x[3] == bb for x in walk(e)):
+                    if kind == "propagate" or kind == "?":
+                        ok = True
+            chk.require(ok, "C20/nested-abort-propagates", inst,
+                        "the outcome of %s is not handed on with `?`: an abort reported by the terminal inside it (Err carrying the "
+                        "result code) is swallowed and %s can still report success" % (cn[len(FEIG):], short),
+                        "`?` on the nested operation", f.sp(bb))
+    chk.floor("nested client operations", n, 9)
 
 
 def check_arm(chk, f, name, enum, av, arm, sw_bb):
